@@ -1370,7 +1370,11 @@ class PathSum(object):
         element expression are recorded as a loop event."""
         gens = e.generators
         out = []
-        for s, its in self.ev_list([g.iter for g in gens], st, fi):
+        # only the first iterable is evaluated where the comprehension
+        # stands; the others are evaluated inside, with the earlier targets
+        # bound
+        for s, it0 in self.ev(gens[0].iter, st, fi):
+            its = [it0]
             if s.outcome is not None:
                 out.append((s, BOT))
                 continue
@@ -1406,11 +1410,18 @@ class PathSum(object):
             body = s.fork()
             body.events = []
             body.frames = [dict(f) for f in s.frames]
-            for g, it in zip(gens, its):
-                el = ('elem', it, next(self.uid))
+            body.loops.append(e)
+            for gi, g in enumerate(gens):
+                if gi:
+                    r = self.ev(g.iter, body, fi)
+                    if len(r) != 1 or r[0][0].outcome is not None:
+                        raise self.err('comprehension: iterable of a later '
+                                       'generator branches', g.iter, fi)
+                    body = r[0][0]
+                    its.append(r[0][1])
+                el = ('elem', its[gi], next(self.uid))
                 for s_ in self.assign(g.target, el, body, fi, e):
                     pass
-            body.loops.append(e)
             elts = [e.elt] if not isinstance(e, ast.DictComp) else [e.key,
                                                                     e.value]
             conds = [c for g in gens for c in g.ifs]
@@ -2494,6 +2505,17 @@ class PathSum(object):
             for x in args[0][1]:
                 flat.extend(x[1])
             return [(st, ('tuple', tuple(flat)))]
+        if name == 'itertools.chain.from_iterable' and len(args) == 1 and \
+                not kwargs:
+            # lazy concatenation: a value, not an effect
+            return [(st, op('chain.from_iterable', args[0]))]
+        if name == 'itertools.chain' and not kwargs:
+            if all(a[0] in ('tuple', 'list') for a in args):
+                flat = []
+                for a in args:
+                    flat.extend(a[1])
+                return [(st, ('tuple', tuple(flat)))]
+            return [(st, op('chain', *args))]
         return None
 
     def _is_generator(self, fi):
